@@ -71,6 +71,13 @@ class ConcreteInputs:
     def choice(self, name, n):
         return self.int(name, 0, n - 1)
 
+    def bytes(self, name, n):
+        v = self._get(name, [0] * n)
+        b = bytes(v)
+        if len(b) != n:
+            raise Ignore(name)
+        return b
+
     def assume(self, cond):
         if not cond:
             raise Ignore("assume")
@@ -238,6 +245,15 @@ class SymbolicInputs:
                 return i
         return n - 1
 
+    def bytes(self, name, n):
+        """n fully symbolic bytes"""
+        with self.ch.NoTracing():
+            p = self.ch.proxy_for_type(bytes, name)
+            self.vars.append((name, p))
+        if len(p) != n:
+            raise self.ch.IgnoreAttempt("len")
+        return p
+
     def assume(self, cond):
         if not cond:
             raise self.ch.IgnoreAttempt("assume")
@@ -276,6 +292,8 @@ def _jsonable(v):
         return v
     if isinstance(v, Fraction):
         return float(v)
+    if isinstance(v, (bytes, bytearray)):
+        return list(v)
     if isinstance(v, (list, tuple)):
         return [_jsonable(x) for x in v]
     if isinstance(v, dict):
@@ -420,6 +438,8 @@ def explore_partition(harness, part, budget_s, per_path_timeout=60.0, seed=0, ma
                 kf = known.match(rec) if known is not None else None
                 if kf is not None:
                     st["known_hits"][kf] = st["known_hits"].get(kf, 0) + 1
+                    if st["known_hits"][kf] >= 40 and st["confirmed"] == 0:
+                        break           # the whole partition fails with the recorded finding: no point in enumerating it
                 else:
                     if sig not in seen_sigs or len(st["violations"]) < 3:
                         st["violations"].append(rec)
